@@ -485,6 +485,19 @@ theorem C13_unlinked_no_processing (files : List LinkLoc.FileSpec) (ans : Nat ‚Ü
   | crash => rfl
   | fuel => rfl
 
+/-- **The root is never replaced.** The object a walk is started on (the model root:
+it has no containing attribute) stays the model object whatever its processors
+return ‚Äî after the walk it is the object with every slot below it in its final
+state; a return value only takes effect through `slotVal` in a containing slot. -/
+theorem C13_root_kept (M : MM) (S : Script) (id cls : Nat) (fs : Fields) (gm : Nat) (hk : M.kind gm ‚â† .mtch) :
+    (walk M S (.obj id cls fs) gm).val = fin M S (.obj id cls fs) := by
+  simp [walk, objStep, hk, fin, walkFields_fin]
+
+/-- on the root (declared rule = own rule) only the own-rule processor is called, once -/
+theorem C13_root_calls (M : MM) (id cls : Nat) :
+    calls M ‚ü®id, cls, cls‚ü© = if M.hasProc cls then [(cls, id)] else [] := by
+  simp [calls]
+
 /-! ## non-vacuity
 
 classes: 0 `Model` (common), 1 `A` (common), 2 `B` (common), 3 `Base` (abstract: A | B | INT), 4 `INT` (match).
